@@ -76,9 +76,15 @@ func runOne(ctx context.Context, sp solverSpec, file string, timeoutS int) (stat
 // Solve races the solvers on the script. expectSat only changes which answer stops the race early
 // (any definite answer does).
 func Solve(dir, name string, sc *Script, timeoutS int) *SolverResult {
-	text := sc.Render("ALL", true)
+	text := sc.Render("", true)
 	file := filepath.Join(dir, sanitizeFile(name)+".smt2")
 	if err := os.WriteFile(file, []byte(text), 0o644); err != nil {
+		return &SolverResult{Status: "error", Output: err.Error()}
+	}
+	// cvc5 wants an explicit logic (and warns on its first output line otherwise); z3 is faster without one
+	cvcFile := filepath.Join(dir, sanitizeFile(name)+".cvc5.smt2")
+	cvcText := strings.Replace(text, "(set-option :produce-models true)\n", "(set-option :produce-models true)\n(set-logic ALL)\n", 1)
+	if err := os.WriteFile(cvcFile, []byte(cvcText), 0o644); err != nil {
 		return &SolverResult{Status: "error", Output: err.Error()}
 	}
 	ctx, cancel := context.WithCancel(context.Background())
@@ -91,10 +97,17 @@ func Solve(dir, name string, sc *Script, timeoutS int) *SolverResult {
 	ch := make(chan res, len(solvers))
 	var wg sync.WaitGroup
 	for _, sp := range solvers {
+		if skip := os.Getenv("GOVC_SKIP_SOLVER"); skip != "" && strings.Contains(skip, sp.name+",") {
+			continue
+		}
 		wg.Add(1)
 		go func(sp solverSpec) {
 			defer wg.Done()
-			st, out, d := runOne(ctx, sp, file, timeoutS)
+			f := file
+			if sp.name == "cvc5" {
+				f = cvcFile
+			}
+			st, out, d := runOne(ctx, sp, f, timeoutS)
 			ch <- res{sp, st, out, d}
 		}(sp)
 	}
